@@ -301,6 +301,10 @@ func (self *BinaryConv) unmarshalList(ctx context.Context, resp http.ResponseSet
 				*out = json.EncodeArrayComma(*out)
 			}
 		}
+		if p.Read != start+len {
+			// the last element ran over the end of the packed payload (a dangling ',' was written)
+			return wrapError(meta.ErrRead, "packed list elements exceed the list length", nil)
+		}
 	} else {
 		// unpackedList(format)：[Tag][Length][Value] [Tag][Length][Value]....
 		if err := self.unmarshalSingular(ctx, resp, p, out, fd.Elem()); err != nil {
